@@ -84,7 +84,8 @@ CLAIMED = {
               "generated shapes are shown to be of that kind by computation. Tie: every session workload (RPCSession and "
               "MessageSession, cost-driven delays, processing timeouts) is replayed as a label trace and accepted by the model "
               "with snapshots (sem value, free permits, holders, running handlers, queue length, ended requests, order of asking). "
-              "The unanswered-request count is covered by the oracle only."),
+              "The unanswered-request count: every arrived request is accounted for exactly once (not started / suspended / ended), "
+              "so received-and-unfinished = arrived - ended (theorem), compared with unanswered_request_count() in every snapshot."),
         note=TB + "asyncio.Semaphore semantics (locked/acquire/release/_wake_up_next, hand-over at wake-up) are modelled from CPython 3.12.1 and validated by the traces; the order in which resumed tasks run is left to the adversary (the theorems hold for every order).",
         technique="Coq proof (LTS invariants by induction over label lists; coroutine shape produced by an AST translator and interpreted by the model) + per-handle trace acceptance against the real Concurrency on a single-step event loop + trace acceptance of real session workloads",
         ref='6/C13'),
